@@ -41,6 +41,7 @@ type c09Conn struct {
 	timeout   time.Duration
 	lingerErr bool
 	lingerSet int
+	latency   time.Duration // data of a data read arrives this long after the read started (< data timeout)
 }
 
 func (c *c09Conn) note(msg string) {
@@ -81,6 +82,13 @@ func (c *c09Conn) Read(p []byte) (int, error) {
 	switch mode {
 	case 0:
 		if c.nchunk < len(c.chunks) {
+			if c.latency > 0 {
+				select {
+				case <-c.closedCh:
+					return 0, errC09Closed
+				case <-time.After(c.latency):
+				}
+			}
 			ch := c.chunks[c.nchunk]
 			c.nchunk++
 			n := copy(p, ch)
@@ -135,6 +143,8 @@ var (
 	c09DialMode  int // 0 connect, 1 refused, 2 never answers (until dial timeout or cancel)
 	c09DialAddr  string
 	c09DialCalls int
+	c09DialLatency time.Duration
+	c09Connected   bool
 )
 
 func c09Dial(d *net.Dialer, ctx context.Context, honourCtx bool, network, addr string) (net.Conn, error) {
@@ -155,6 +165,18 @@ func c09Dial(d *net.Dialer, ctx context.Context, honourCtx bool, network, addr s
 			return nil, c09Timeout{}
 		}
 	}
+	if c09DialLatency > 0 {
+		var done <-chan struct{}
+		if honourCtx {
+			done = ctx.Done()
+		}
+		select {
+		case <-done:
+			return nil, context.Canceled
+		case <-time.After(c09DialLatency):
+		}
+	}
+	c09Connected = true
 	return c09Peer, nil
 }
 
@@ -186,11 +208,16 @@ func c09Choice(label string, n uint8) int {
 // write ok/error/stall; up to three reads, each data (1 or 2 solver-chosen bytes) / EOF / stall /
 // reset; optional cancellation at a chosen instant.
 func VerifH_C09_probe() {
-	const dialT, dataT = 2 * time.Second, 2 * time.Second
+	// TIMEOUTS 0: connect and data timeouts 2 s / 2 s; 1: 1 s / 2 s; 2: 3 s / 1 s
+	tsel := verifParam("TIMEOUTS", 0)
+	dialT := []time.Duration{2 * time.Second, time.Second, 3 * time.Second}[tsel]
+	dataT := []time.Duration{2 * time.Second, 2 * time.Second, time.Second}[tsel]
 	verifNow()
-	c09DialCalls = 0
+	c09DialCalls, c09Connected = 0, false
 	c09DialMode = c09Choice("dial", 3)
+	c09DialLatency = []time.Duration{0, dialT - time.Millisecond}[c09Choice("dialLatency", 2)]
 	peer := &c09Conn{closedCh: make(chan struct{}), timeout: dataT}
+	peer.latency = []time.Duration{0, dataT - time.Millisecond}[c09Choice("replyLatency", 2)]
 	c09Peer = peer
 	peer.lingerErr = ndBool("lingerFails")
 	peer.writeMode = c09Choice("write", 3)
@@ -230,7 +257,8 @@ func VerifH_C09_probe() {
 		verifCover("cancelled")
 		verifAssert(end <= cancelAt+time.Millisecond || end <= time.Millisecond, "probe did not end promptly after the scan was cancelled")
 	}
-	connected := c09DialMode == 0
+	connected := c09Connected
+	verifAssert(connected || c09DialMode != 0 || cancelAt >= 0, "connection attempt abandoned although the server accepts within the connect timeout")
 	if connected {
 		verifAssert(peer.closed >= 1, "connection not closed")
 		verifAssert(peer.lingerSet == 1, "linger not configured exactly once")
